@@ -53,6 +53,10 @@ structure Options where
   maxName : Nat := Gen.Xml.defaultMaxNameLength
   maxText : Nat := Gen.Xml.defaultMaxTextSpan
   maxTokens : Nat := Gen.Xml.defaultMaxTotalTokens
+  /-- the compile-time switch `IORA_XML_THROW_ON_ERROR` (default `Gen.Xml.throwOnErrorDefault` = 0): `fail()` throws
+  `std::runtime_error` after recording the error instead of returning `false`.  Not a member of the C++ struct; carried here so that
+  both builds are one model.  The only place where the two builds differ observably is `readName` (see there). -/
+  throwing : Bool := Gen.Xml.throwOnErrorDefault != 0
   deriving Repr
 
 /-- every message `fail()` / an `Error` can carry, as a small enum -/
@@ -361,7 +365,8 @@ def matchWordCI (w : Bytes) (c : Cur) : Res Bool :=
 
 /-- mirrors `readName`: `none` is the empty view.  When the name is longer than `maxNameLength` the code calls
 `fail("name too long")` and returns the empty view; every caller then calls `fail` again with its own message at the same cursor,
-so only the cursor (after the over-long name) is observable. -/
+so only the cursor (after the over-long name) is observable — unless the build throws (`o.throwing`): then that first `fail` ends
+the call and "name too long" IS the reported error. -/
 def readName (o : Options) (c : Cur) : Res (Option Slice) :=
   if c.eof then .ok none c                       -- `eof() ||`
   else
@@ -373,7 +378,7 @@ def readName (o : Options) (c : Cur) : Res (Option Slice) :=
         (advR 1 c).bind fun _ c0 =>              -- `advance();`
         (advWhile isNameChar c0.rest c0).bind fun _ c' =>   -- `while (!eof() && isNameChar(peek())) advance();`
           let len := c'.pos - c.pos
-          if len > o.maxName then .ok none c' else .ok (some ⟨c.pos, len⟩) c'
+          if len > o.maxName then (if o.throwing then .fail .nameTooLong c' else .ok none c') else .ok (some ⟨c.pos, len⟩) c'
 
 /-- the search loop of `readUntil`: `if (pos >= size) return false; if (_input.compare(pos, n, endSeq) == 0) …; ch = _input[pos++];`
 (`compare` is a library call that clamps to the end) — `none` = returned false -/
@@ -772,6 +777,101 @@ def decodeLoop : Nat → Bytes → Nat → Bytes → DecRes
 /-- mirrors `Parser::decodeEntities` -/
 def decodeEntities (inp : Bytes) : DecRes := decodeLoop (inp.length + 1) inp 0 []
 
+/-! ### `decodeEntities` / `appendCharRef` read by read
+
+The functions above follow the data (list patterns).  The C++ indexes: `in[i]`, `ent[0]`, `entBody[1]`, `entBody[i]`.  The versions
+below perform every such read as the partial `xs[i]?` under exactly the guard the C++ has (`Gen.Xml.decodeReadSites`, regenerated from
+the header, lists read and guard; `decodeReadSites` below is what this file implements); an index `≥ size` is the outcome `oob`.
+`Lemmas/XmlDecodeReads.lean` proves them equal to the functions above — so `oob` never happens. -/
+
+/-- outcome of an explicit reader: a value, an out-of-range read, or an exhausted loop budget -/
+inductive RdRes (α : Type) where
+  | ok (a : α)
+  | oob
+  | fuel
+  deriving Repr, DecidableEq
+
+/-- the hex loop of `appendCharRef`: `for (i = 2; i < entBody.size(); ++i) { char c = entBody[i]; … code = (code << 4) | v; }`;
+`ok none` = returned false -/
+def hexLoopI (ent : Bytes) : Nat → Nat → UInt32 → RdRes (Option UInt32)
+  | 0, _, _ => .fuel
+  | f + 1, i, code =>
+    if i < ent.length then                       -- `i < entBody.size()`
+      match ent[i]? with                         -- `entBody[i]`
+      | none => .oob
+      | some c =>
+        match hexDigitVal c with
+        | none => .ok none
+        | some v => hexLoopI ent f (i + 1) ((code <<< 4) ||| v)
+    else .ok (some code)
+
+/-- the decimal loop of `appendCharRef`: `for (i = 1; i < entBody.size(); ++i) { char c = entBody[i]; … }` -/
+def decLoopI (ent : Bytes) : Nat → Nat → UInt32 → RdRes (Option UInt32)
+  | 0, _, _ => .fuel
+  | f + 1, i, code =>
+    if i < ent.length then                       -- `i < entBody.size()`
+      match ent[i]? with                         -- `entBody[i]`
+      | none => .oob
+      | some c => if c < 0x30 || c > 0x39 then .ok none else decLoopI ent f (i + 1) (code * 10 + (c - 0x30).toUInt32)
+    else .ok (some code)
+
+/-- mirrors `appendCharRef(entBody, out)` read by read -/
+def appendCharRefI (ent : Bytes) : RdRes (Option Bytes) :=
+  if ent.length < 2 then .ok none                -- `if (entBody.size() < 2) return false;`
+  else
+    match ent[1]? with                           -- `entBody[1] == 'x' || entBody[1] == 'X'`
+    | none => .oob
+    | some x =>
+      match (if x = 0x78 || x = 0x58 then hexLoopI ent (ent.length + 1) 2 0 else decLoopI ent (ent.length + 1) 1 0) with
+      | .ok none => .ok none
+      | .ok (some code) => .ok (encodeUtf8 code)
+      | .oob => .oob
+      | .fuel => .fuel
+
+/-- the loop of `decodeEntities` read by read: `i` is the index into `in`, `out` the bytes appended so far -/
+def decodeLoopI (inp : Bytes) : Nat → Nat → Bytes → RdRes DecRes
+  | 0, _, _ => .fuel
+  | f + 1, i, out =>
+    if i < inp.length then                       -- `i < in.size()`
+      match inp[i]? with                         -- `char ch = in[i];`
+      | none => .oob
+      | some ch =>
+        if ch ≠ 0x26 then decodeLoopI inp f (i + 1) (out ++ [ch])
+        else
+          match findByte 0x3B (inp.drop (i + 1)) with      -- `in.find(';', i + 1)` (library call)
+          | none => .ok (.err .unterminatedEntity i)
+          | some k =>
+            let ent := (inp.drop (i + 1)).take k           -- `in.substr(i + 1, semi - (i + 1))` (library call, `i + 1 <= size`)
+            match predefined ent with
+            | some b => decodeLoopI inp f (i + k + 2) (out ++ [b])
+            | none =>
+              if !ent.isEmpty then                         -- `!ent.empty() &&`
+                match ent[0]? with                         -- `ent[0] == '#'`
+                | none => .oob
+                | some h =>
+                  if h = 0x23 then
+                    match appendCharRefI ent with
+                    | .ok (some u) => decodeLoopI inp f (i + k + 2) (out ++ u)
+                    | .ok none => .ok (.err .badCharRef i)
+                    | .oob => .oob
+                    | .fuel => .fuel
+                  else .ok (.err .unknownEntity i)
+              else .ok (.err .unknownEntity i)
+    else .ok (.ok out)
+
+/-- mirrors `Parser::decodeEntities` read by read (`out.clear()` first: `Gen.Xml.decodeFirstStatement`) -/
+def decodeEntitiesI (inp : Bytes) : RdRes DecRes := decodeLoopI inp (inp.length + 1) 0 []
+
+/-- the indexed reads of `decodeEntities` / `appendCharRef` with their guards, as implemented above
+(function, read, guard, code between guard and read) -/
+def decodeReadSites : List (String × String × String × String) :=
+  [("decodeEntities", "in[i]", "i < in.size()", ";) { char ch ="),
+   ("decodeEntities", "ent[0]", "!ent.empty()", "&&"),
+   ("appendCharRef", "entBody[1]", "entBody.size() < 2", ") { return false; } uint32_t code = 0; if ("),
+   ("appendCharRef", "entBody[1]", "entBody.size() < 2", ") { return false; } uint32_t code = 0; if (entBody[1] == 'x' ||"),
+   ("appendCharRef", "entBody[i]", "i < entBody.size()", "; ++i) { char c ="),
+   ("appendCharRef", "entBody[i]", "i < entBody.size()", "; ++i) { char c =")]
+
 /-! ### SAX -/
 
 /-- the nine members of `struct SaxCallbacks`, in declaration order -/
@@ -911,6 +1011,52 @@ def domOf (bs : Bytes) (r : List Token × Outcome) : DomRes :=
 
 def domBuild (o : Options) (bs : Bytes) : DomRes := domOf bs (tokens o bs)
 
+/-- what a caller of `DomBuilder::build` sees in a build with `IORA_XML_THROW_ON_ERROR=1`: a returned value, or the exception
+`fail()` threw inside `parser.next()` (the error is recorded in the parser before the throw) -/
+inductive DomResT where
+  | ret (r : DomRes)
+  | thrown (e : ErrKind) (c : Cur)
+  deriving Repr
+
+/-- mirrors `DomBuilder::build` in a throwing build.  Entity-decoding failures do not go through `fail()`: they still return
+`nullptr`; a tokenizer error — which a non-throwing build reports after the loop — leaves `build` as an exception. -/
+def domBuildT (o : Options) (bs : Bytes) : DomResT :=
+  let r := tokens { o with throwing := true } bs
+  match domFold bs {} r.1 with
+  | .inr res => .ret res
+  | .inl _ =>
+    match r.2 with
+    | .error e c _ => .thrown e c
+    | _ => .ret (domOf bs r)
+
+/-! ### the public `next()` with its two latches -/
+
+/-- a `Parser` object between calls: the tokenizer state plus `_hasError` (with the recorded error) and `_emittedEof` -/
+structure PSt where
+  st : St
+  error : Option (ErrKind × Cur) := none     -- `_hasError` / `_error`
+  emittedEof : Bool := false
+  deriving Repr
+
+/-- mirrors the public `Parser::next()` including its first two tests: `if (_hasError) return false; if (_emittedEof) return false;` -/
+def pnext (o : Options) (p : PSt) : Option Token × PSt :=
+  if p.error.isSome then (none, p)
+  else if p.emittedEof then (none, p)
+  else
+    match next o p.st with
+    | .tok t s' => (some t, { p with st := s' })
+    | .eof _ s' => (none, { p with st := s', emittedEof := true })
+    | .err e c => (none, { p with error := some (e, c) })
+    | .bad _ => (none, p)
+
+/-- `k` calls of the public `next()`: the tokens of the calls that returned true, and the object afterwards -/
+def pcalls (o : Options) : Nat → PSt → List Token × PSt
+  | 0, p => ([], p)
+  | k + 1, p =>
+    match pnext o p with
+    | (some t, p') => let (ts, q) := pcalls o k p'; (t :: ts, q)
+    | (none, p') => pcalls o k p'
+
 /-! ### the read sites this model implements
 
 One entry per raw read of the input in the C++ tokenizer, in source order: (function, read, guard, the code between guard and read —
@@ -964,6 +1110,40 @@ def readSites : List (String × String × String × String) :=
    -- `textLoop`: `if c.eof then … else match c.peek`
    ("readText", "peek()", "!eof()", "&&")]
 
+/-- every test of an `Options` member in the tokenizer, as this file performs it (regenerated: `Gen.Xml.limitTests`) -/
+def limitTests : List (String × String) :=
+  [-- `next`: `if o.maxTokens ≠ 0 && s.produced ≥ o.maxTokens then .err .tokenLimit`
+   ("next", "_opt.maxTotalTokens != 0 && _producedTokens >= _opt.maxTotalTokens"),
+   -- `readName`: `if len > o.maxName`
+   ("readName", "len > _opt.maxNameLength"),
+   -- `readQuotedValue`: `if out.len > o.maxText then .fail .attrTooLong`
+   ("readQuotedValue", "out.size() > _opt.maxTextSpan"),
+   -- `readAttributes`: `if acc'.length > o.maxAttrs then .fail .tooManyAttrs`
+   ("readAttributes", "attrs.size() > _opt.maxAttrsPerElement"),
+   -- `readStartOrEmptyTag`: `if s.depth + 1 > o.maxDepth then .err .depthExceeded`
+   ("readStartOrEmptyTag", "_depth + 1 > _opt.maxDepth"),
+   -- `textLoop`: `if c.pos - start ≥ o.maxText then .fail .textTooLarge`
+   ("readText", "(_cur - start) >= _opt.maxTextSpan")]
+
+/-- mirrors `enum class NodeType` members a token kind is turned into by `DomBuilder::build`, where the node's value comes from, and
+the guard on creating it — the table `domStep` implements (regenerated: `Gen.Xml.domCases`).  `decoded:` = `decodeEntities` into a
+fresh string (the model's `decodeEntities` starts from the empty output), `raw:` = the slice copied. -/
+def domCases : List (String × String × String × String) :=
+  [("StartElement", "Element", "decoded:a.value", "-"),           -- `decodeAttrs`, frame pushed
+   ("EmptyElement", "Element", "decoded:a.value", "-"),           -- `decodeAttrs`, `.elem … []` attached
+   ("EndElement", "-", "-", "-"),                                 -- frame popped and attached
+   ("Text", "Text", "decoded:t.text", "!v.empty()"),              -- `if v.isEmpty then d else addChild (.text v)`
+   ("CData", "CData", "raw:t.text", "-"),
+   ("Comment", "Comment", "raw:t.text", "-"),
+   ("ProcessingInstruction", "ProcessingInstruction", "raw:t.text", "-"),
+   ("XmlDecl", "-", "-", "-"), ("Doctype", "-", "-", "-"), ("Invalid", "-", "-", "-"), ("Eof", "-", "-", "-"),
+   ("default", "-", "-", "-")]                                    -- `| _ => .inl d`
+
+/-- the `switch` of `runSax` as `slotOf` implements it: (case label, member or `-`) in the order of the C++ `case` labels -/
+def saxSwitch : List (String × String) :=
+  ([Kind.xmlDecl, .doctype, .startElement, .endElement, .emptyElement, .text, .cdata, .comment, .pi, .eof, .invalid].map fun k =>
+    (k.cxxName, match slotOf k with | some sl => sl.cxxName | none => "-")) ++ [("default", "-")]
+
 /-- mirrors `Token::splitQName`: position of the first `:` in the name -/
 def splitQName (name : Bytes) : Option (Nat × Nat) :=
   match findByte 0x3A name with
@@ -993,5 +1173,52 @@ def Node.childByName (n : Node) (name : Bytes) : Option Node :=
       | .elem cn _ _ => cn == name
       | _ => false
   | _ => none
+
+/-! ### `Node::~Node` as repaired (FC14a): iterative destruction of a subtree -/
+
+/-- the children a node owns -/
+def Node.kids : Node → List Node
+  | .elem _ _ ch => ch
+  | _ => []
+
+/-- a node with its children taken away (`n->children.clear()`) -/
+def Node.shallow : Node → Node
+  | .elem n as _ => .elem n as []
+  | x => x
+
+/-- what `~Node` lets go out of scope: the node (children already moved out) and `n->children.size()` at that moment — the implicit
+member destruction recurses once per remaining child level, so `0` means: no recursion -/
+structure Dropped where
+  node : Node
+  kidsLeft : Nat
+  deriving Repr
+
+/-- the `while (!pending.empty())` loop of `~Node`.  `pending` is held back-first (`pending.back()` is the head), so
+`for (auto &c : n->children) pending.push_back(std::move(c));` prepends the children reversed.  The fuel is the number of nodes. -/
+def destroyLoop : Nat → List Node → List Dropped
+  | 0, _ => []
+  | _ + 1, [] => []
+  | f + 1, n :: rest =>                           -- `n = std::move(pending.back()); pending.pop_back();`
+    ⟨n.shallow, 0⟩ :: destroyLoop f (n.kids.reverse ++ rest)
+
+mutual
+  /-- number of nodes of a subtree -/
+  def Node.size : Node → Nat
+    | .elem _ _ ch => 1 + sizeList ch
+    | .text _ => 1
+    | .cdata _ => 1
+    | .comment _ => 1
+    | .pi _ _ => 1
+  def sizeList : List Node → Nat
+    | [] => 0
+    | n :: r => n.size + sizeList r
+end
+
+/-- mirrors `Node::~Node()`: `pending = std::move(children);` the loop; then the node itself goes (its `children` is moved-from) -/
+def Node.destroy (n : Node) : List Dropped := destroyLoop (sizeList n.kids) n.kids ++ [⟨n.shallow, 0⟩]
+
+/-- the body of `~Node` this mirrors (regenerated: `Gen.Xml.nodeDtorBody`) -/
+def nodeDtorBody : String :=
+  "std::vector<std::unique_ptr<Node>> pending = std::move(children); while (!pending.empty()) { std::unique_ptr<Node> n = std::move(pending.back()); pending.pop_back(); for (auto &c : n->children) { pending.push_back(std::move(c)); } n->children.clear(); }"
 
 end Iora.Xml
